@@ -1,14 +1,16 @@
 """C14 — the SMT-LIB reader inverts the writer and reads solver model values correctly."""
 HANDLER = "C14"
 RULE = ("seven case kinds. rt (35%): the C05 expression generator (all operators, 1-bit/wider operands in every position, arrays with Bool index/data, "
-        "name pools incl. quoted / non-ASCII / per-character names), the real writer's text read back by the real parse_expr with the symbols of the "
+        "name pools incl. quoted (also with spaces around keywords) / multi-byte UTF-8 (fixed and by page x low byte) / per-character names / simple names that "
+        "begin with a literal, keyword or theory name (true_x, falsey, letx, _x), the real writer's text read back by the real parse_expr with the symbols of the "
         "expression, 2 assignments. text (25%): malformed variants of writer output (prefix at a random character / after a token, one parenthesis deleted, "
         "parenthesis inserted, extra ')' at the end, extra '(' at the start, junk suffix: token, string literal, open |quote, comment, decimal) through "
-        "parse_expr, and (1/4 of them) well-formed terms in forms the writer never emits: bvult / bvslt / distinct, three-argument and/or/xor/=/bvand/bvor/bvxor/bvadd/bvmul, nested single-binding lets, a let that shadows a declared symbol, multi-binding let, chained =>, a parenthesised term. val (15%): solver-style value texts from the grammar (#b, #x upper/lower case, true/false, (_ bvN w), store chains over "
+        "parse_expr, (1/6 of them) balanced terms with operands of every kind (1-bit, 4-bit, 8-bit, arrays, sorts, nested terms) under every operator and indexed operator the reader knows, ill-sorted except by chance, (1/4 of the rest) well-formed terms in forms the writer never emits: bvult / bvslt / distinct, three-argument and/or/xor/=/bvand/bvor/bvxor/bvadd/bvmul, nested single-binding lets, a let that shadows a declared symbol, multi-binding let, chained =>, a parenthesised term. val (15%): solver-style value texts from the grammar (#b, #x upper/lower case, true/false, (_ bvN w), store chains over "
         "((as const (Array ..)) v) with Bool or bit-vector index/data, nested single-binding lets) wrapped as get-value answers ((term value)) with "
         "malformed wrappers, read by SolverContext::get_value through a scripted solver process; in the solver streams the answers of real z3 / cvc5 "
         "get-value queries on generated expressions. cmd (12%): every SmtCommand through serialize_cmd and parse_command. script (8%): 1..4 command lines "
-        "through read_command (comment / blank lines, a command split over two lines, truncated last command, missing final newline) with an end-of-input "
+        "through read_command (comment / blank lines, a command split over two lines, truncated last command, missing final newline; 1/4 of the scripts "
+        "declare or define ONE name twice, in two push/pop scopes at two sorts, and use it after each introduction) with an end-of-input "
         "watchdog. gua (5%): get-unsat-assumptions answers through SolverContext::get_unsat_assumptions. distinct = distinct case lines")
 ASSUMPTIONS = [
     "Model/SmtLex.v + Model/SmtParse.v mirror patronus/src/smt/parser.rs (lexer state machine, the stack machine of parse_expr_or_type with parse_pattern / "
